@@ -8,6 +8,8 @@ package bls24315
 import (
 	"math/big"
 
+	"github.com/consensys/gnark-crypto/ecc"
+	"github.com/consensys/gnark-crypto/ecc/bls24-315/fr"
 	"github.com/consensys/gnark-crypto/ecc/bls24-315/internal/fptower"
 )
 
@@ -46,6 +48,19 @@ func VerifG1AffineFromExt(p *G1Affine, q *g1JacExtended) { p.fromJacExtended(q) 
 func VerifG1JacFromExt(p *G1Jac, q *g1JacExtended)       { p.fromJacExtended(q) }
 func VerifG1JacUnsafeFromExt(p *G1Jac, q *g1JacExtended) { p.unsafeFromJacExtended(q) }
 
+// VerifInnerMsmG1 runs the bucket method with a forced window size c.
+func VerifInnerMsmG1(c uint64, points []G1Affine, scalars []fr.Element, nbTasks int) G1Jac {
+	var p G1Jac
+	_innerMsmG1(&p, c, points, scalars, ecc.MultiExpConfig{NbTasks: nbTasks})
+	return p
+}
+
+// VerifPartitionScalars forwards to partitionScalars (digits only).
+func VerifPartitionScalars(scalars []fr.Element, c uint64, nbTasks int) []uint16 {
+	d, _ := partitionScalars(scalars, c, nbTasks)
+	return d
+}
+
 // VerifG2Coord is the coordinate field of the twist.
 type VerifG2Coord = fptower.E4
 
@@ -81,3 +96,10 @@ func VerifG2ExtOp(op string, p, q *g2JacExtended, a *G2Affine) {
 func VerifG2AffineFromExt(p *G2Affine, q *g2JacExtended) { p.fromJacExtended(q) }
 func VerifG2JacFromExt(p *G2Jac, q *g2JacExtended)       { p.fromJacExtended(q) }
 func VerifG2JacUnsafeFromExt(p *G2Jac, q *g2JacExtended) { p.unsafeFromJacExtended(q) }
+
+// VerifInnerMsmG2 runs the bucket method with a forced window size c.
+func VerifInnerMsmG2(c uint64, points []G2Affine, scalars []fr.Element, nbTasks int) G2Jac {
+	var p G2Jac
+	_innerMsmG2(&p, c, points, scalars, ecc.MultiExpConfig{NbTasks: nbTasks})
+	return p
+}
